@@ -1,9 +1,15 @@
-(* C47 -- pinned theorems (nothing else lives here).  They say that, in the reference reading of pio.pl, the
-   lazily materialised list is the list of the file's characters whatever the chunk size; how the real
-   attributed-variable machinery behaves is established differentially by checks/C47.py. *)
+(* C47 -- pinned theorems (nothing else lives here).
+   Part 1 (reference reading of pio.pl): the lazily materialised list is the list of the file's characters whatever
+   the chunk size.
+   Part 2 (impl-mirror Pio.v of the clauses of pio.pl: stream + blackboard + suspensions with their saved Pos, both
+   for reposition(true) and reposition(false)): for every content, every chars_to_read > 0 and every script of
+   demands and backtracking steps the consumer sees exactly the content; re-forcing after backtracking yields the
+   same cells (and would not without the saved position); any parser gives the answers it gives on the plain list;
+   the number of reads is bounded.  checks/C47.py ties the mirror to the implementation (positions read so far). *)
 From Coq Require Import List NArith Arith.
-From V Require Import C47.Model C47.Proofs.
+From V Require Import C47.Model C47.Proofs C47.Pio C47.PioProofs Gen.PioParams.
 Import ListNotations.
+Open Scope nat_scope.
 
 (* forcing a lazy list built from any sequence of chunks yields their concatenation *)
 Theorem lazy_list_is_list : forall chunks, to_list (lazy_of_chunks chunks) = concat chunks.
@@ -32,3 +38,109 @@ Print Assumptions chunks_wellformed.
 
 Example ex_lazy : to_list (lazy_of_text 2 [1; 2; 3; 4; 5]%N) = [1; 2; 3; 4; 5]%N /\ chunks_of 5 2 [1; 2; 3; 4; 5]%N = [[1; 2]; [3; 4]; [5]]%N.
 Proof. vm_compute. auto. Qed.
+
+(* ================================================================== Part 2: the impl-mirror (Pio.v) *)
+
+(* Whatever the consumer did before (any script of demands and backtracking steps), for both kinds of stream:
+   what is materialised is a prefix of the content (all of it once the list is closed); asking for cell i answers
+   the i-th character of the content; asking for the first k cells in turn answers firstn k content; asking for the
+   cell behind the last answers "end", and then the whole content is materialised and the list is closed with []. *)
+Theorem forced_list_is_content : forall (rp : bool) (n : nat) (cs : list N) (ops : list op), 0 < n ->
+  let st := reach rp n cs ops in
+  lmat (st_l st) = firstn (length (lmat (st_l st))) cs /\
+  (lclosed (st_l st) = true -> lmat (st_l st) = cs) /\
+  (forall i, fst (demand true rp n i st) = nth_error cs i) /\
+  (forall k, k <= length cs -> script_answers true rp n (map ODemand (seq 0 k)) st = map (@Some N) (firstn k cs)) /\
+  (let st' := snd (demand true rp n (length cs) st) in
+   fst (demand true rp n (length cs) st) = None /\ lmat (st_l st') = cs /\ lclosed (st_l st') = true).
+Proof. exact forced_list_is_content_l. Qed.
+Print Assumptions forced_list_is_content.
+
+(* chunk size and kind of stream are irrelevant: forcing everything gives the same list, every script gets the
+   answers nth_error content, and two scripts asking for the same cells get the same answers *)
+Theorem mirror_chunk_size_irrelevant : forall (rp1 rp2 : bool) (n1 n2 : nat) (cs : list N) (ops1 ops2 : list op), 0 < n1 -> 0 < n2 ->
+  lmat (st_l (force_all rp1 n1 cs)) = lmat (st_l (force_all rp2 n2 cs)) /\
+  script_answers true rp1 n1 ops1 (st_init rp1 cs) = map (nth_error cs) (demanded ops1) /\
+  (demanded ops1 = demanded ops2 ->
+   script_answers true rp1 n1 ops1 (st_init rp1 cs) = script_answers true rp2 n2 ops2 (st_init rp2 cs)).
+Proof. exact chunk_size_irrelevant_l. Qed.
+Print Assumptions mirror_chunk_size_irrelevant.
+
+(* after backtracking over the j-th suspension (with anything forced before and after), the suspensions that are
+   forced again are bound to the same cells as before, and every demand is answered as before *)
+Theorem backtracking_reforce_same : forall (rp : bool) (n : nat) (cs : list N) (ops1 ops2 : list op) (j : nat), 0 < n ->
+  let st1 := reach rp n cs ops1 in
+  let st2 := reach rp n cs (ops1 ++ OUndo j :: ops2) in
+  (forall k e1 e2, nth_error (l_cells (st_l st1)) k = Some e1 -> nth_error (l_cells (st_l st2)) k = Some e2 -> e1 = e2) /\
+  (forall i, fst (demand true rp n i st1) = fst (demand true rp n i st2)) /\
+  script_answers true rp n (ops1 ++ OUndo j :: ops2) (st_init rp cs) = map (nth_error cs) (demanded (ops1 ++ OUndo j :: ops2)).
+Proof. exact backtracking_reforce_same_l. Qed.
+Print Assumptions backtracking_reforce_same.
+
+(* ... and this is what the saved Pos and set_stream_position/2 are for: without that call the script
+   "cell 0, cell 2, backtrack to the start, cell 0" on "1234" read in twos answers end-of-list for the last demand *)
+Theorem backtracking_reforce_same_refuted :
+  script_answers false true 2 refute_script (st_init true refute_content) = [Some 1%N; Some 3%N; None] /\
+  script_answers true true 2 refute_script (st_init true refute_content) = [Some 1%N; Some 3%N; Some 1%N] /\
+  script_answers false true 2 refute_script (st_init true refute_content) <> map (nth_error refute_content) (demanded refute_script).
+Proof. exact backtracking_reforce_same_refuted_l. Qed.
+Print Assumptions backtracking_reforce_same_refuted.
+
+(* any parser written against the list interface (ask for cell i, choice points, probes), started in any reachable
+   state: all its solutions (findall) and its first solution (once) on the lazy list are those on the plain list *)
+Theorem phrase_lazy_eq_phrase_list : forall (A : Type) (p : parser A) (rp : bool) (n : nat) (cs : list N) (ops : list op) (log : list (nat * nat)),
+  0 < n ->
+  fst (run_lazy true rp n p (mkP (reach rp n cs ops) log)) = run_list cs p /\
+  fst (run_lazy1 true rp n p (mkP (reach rp n cs ops) log)) = run_list1 cs p.
+Proof. exact phrase_lazy_eq_phrase_list_l. Qed.
+Print Assumptions phrase_lazy_eq_phrase_list.
+
+(* reposition(true): a parser without choice points that only asks for cells below k causes at most ceil(k/n)
+   get_n_chars calls (so at most ceil(k/n)+1) *)
+Theorem stops_early_reads_bounded : forall (A : Type) (p : parser A) (k n : nat) (cs : list N), 0 < n -> det_below k p ->
+  n_reads (p_st (snd (run_lazy true true n p (mkP (st_init true cs) [])))) <= ceil_div k n /\
+  n_reads (p_st (snd (run_lazy1 true true n p (mkP (st_init true cs) [])))) <= ceil_div k n.
+Proof. exact stops_early_reads_bounded_l. Qed.
+Print Assumptions stops_early_reads_bounded.
+
+(* reposition(false): ANY parser (backtracking included: the buffer is never re-read) that only asks for cells below k
+   causes at most ceil(k/n)+1 get_n_chars calls, and the buffer invariant holds at the end *)
+Theorem buffered_reads_bounded : forall (A : Type) (p : parser A) (k n : nat) (cs : list N), 0 < n -> gets_below k p ->
+  let st := p_st (snd (run_lazy true false n p (mkP (st_init false cs) []))) in
+  let st1 := p_st (snd (run_lazy1 true false n p (mkP (st_init false cs) []))) in
+  n_reads st <= ceil_div k n + 1 /\ buffer_inv cs (st_m st) /\
+  n_reads st1 <= ceil_div k n + 1 /\ buffer_inv cs (st_m st1).
+Proof. exact buffered_reads_bounded_l. Qed.
+Print Assumptions buffered_reads_bounded.
+
+(* reposition(false), after any script: Buffer = the first BufferLen characters of the content, BufferLen = its length =
+   the stream position, a closed buffer is the whole content, and BufferPos <= BufferLen or BufferPos = eof *)
+Theorem buffer_invariant : forall (n : nat) (cs : list N) (ops : list op), 0 < n ->
+  buffer_inv cs (st_m (reach false n cs ops)).
+Proof. exact buffer_invariant_l. Qed.
+Print Assumptions buffer_invariant.
+
+(* the evaluator used by checks/C47.py (a cursor instead of an index) computes exactly the mirror's run *)
+Theorem run_fast_is_run_lazy : forall (A : Type) (p : parser A) (rp : bool) (n : nat) (cs : list N), 0 < n ->
+  run_lazy true rp n p (mkP (st_init rp cs) []) =
+    (fst (run_fast true rp n p (f_init rp cs)), f_ps (snd (run_fast true rp n p (f_init rp cs)))) /\
+  fst (run_fast true rp n p (f_init rp cs)) = run_list cs p.
+Proof. exact run_fast_is_run_lazy_l. Qed.
+Print Assumptions run_fast_is_run_lazy.
+
+(* the theorems apply to the constant regenerated from pio.pl *)
+Theorem chars_to_read_positive : 0 < N.to_nat chars_to_read.
+Proof. vm_compute. apply Nat.lt_0_succ. Qed.
+Print Assumptions chars_to_read_positive.
+
+(* non-vacuity: parsers satisfying the hypotheses exist, and the bounds are attained *)
+Example ex_det_below : det_below 3 (PGet 0%N (fun a => PGet 2%N (fun b => PRet (a, b)))).
+Proof. cbn. repeat split; auto. Qed.
+Example ex_reads_true : n_reads (p_st (snd (run_lazy true true 2 (PGet 0%N (fun a => PGet 2%N (fun b => PRet (a, b)))) (mkP (st_init true [1; 2; 3; 4; 5]%N) [])))) = ceil_div 3 2.
+Proof. vm_compute. reflexivity. Qed.
+Example ex_gets_below : gets_below 3 (POr (PGet 2%N (fun _ => @PFail nat)) (PGet 0%N (fun _ => PRet 7))).
+Proof. cbn. repeat split; auto. Qed.
+Example ex_reads_false : n_reads (p_st (snd (run_lazy true false 2 (POr (PGet 2%N (fun _ => @PFail nat)) (PGet 0%N (fun _ => PRet 7))) (mkP (st_init false [1; 2; 3; 4; 5]%N) [])))) = 2.
+Proof. vm_compute. reflexivity. Qed.
+Example ex_grammar_alt : o_sols (run_case true 2 4 [1; 120; 121; 120; 122]%N) = [[3; 4802]%N] /\ o_reads (run_case true 2 4 [1; 120; 121; 120; 122]%N) <> o_reads (run_case false 2 4 [1; 120; 121; 120; 122]%N).
+Proof. vm_compute. split; [reflexivity|discriminate]. Qed.
